@@ -127,6 +127,19 @@ theorem prepare_only_context (s : ADB) (hs : s.crashed = false) (th bh : Hash) (
     prepare s th bh ti = { s with thash := th, bhash := bh, txIndex := ti, al := ⟨[], []⟩ } := by
   simp [prepare, hs]
 
+/-- `NewAccountDB(lastCommittedRoot)`: nothing of the old session survives but the committed trie and the code blobs -/
+theorem reopen_fresh (s : ADB) :
+    (reopen s).trie = s.committed ∧ (reopen s).objs = [] ∧ (reopen s).dirtySet = [] ∧ (reopen s).journal = [] ∧
+    (reopen s).revisions = [] ∧ (reopen s).nextRev = 0 ∧ (reopen s).codes = s.codes ∧ (reopen s).crashed = false := by
+  simp [reopen, ADB.empty]
+
+/-- the three thin readers are their underlying reader as far as the state goes (so they are covered by the
+    restoration theorem through `GetBalance`, `GetCode`, `GetData`) and answer what `obs` says -/
+theorem thin_readers (c : Cfg) (s : ADB) (a : Addr) (k : Key) (n : Nat) :
+    (canTransfer c s a n).1 = (getBalance c s a).1 ∧ (isContract s a).1 = (getCode s a).1 ∧
+    (getState s a k).1 = (getData s a k).1 ∧ (getState s a k).2 = toHash (getData s a k).2 ∧
+    (canTransfer c s a n).2 = decide ((getBalance c s a).2 ≥ n) := ⟨rfl, rfl, rfl, rfl, rfl⟩
+
 /-! ## definitions added in the model-growth round -/
 
 theorem toAddr_length (b : Bytes) : (toAddr b).length = 20 := by
